@@ -10,7 +10,7 @@ META = {
              "bin; a case is non-trivial when the plan has >= 2 bins; cases are distinct lattice points"),
     "exhaustive": True,
     "bounds": {
-        "quick": "N in 8..40 + {100,127,1000}; fs in {1,0.37,1000}; olap in {0,.25,.3,.5,2/3,.75,.9,.99}; bmin in {1,1.5,2,3.7,N/4,N/2-.01}; Lmin in {1,2,5,N//4,N//2,ceil(.9N),N-1,N}; Jdes in {1,2,5,10,50,500}; Kdes in {1,2,10,100}; each plan also requested through SpectrumAnalyzer.plan() (Jdes in {1,5,50,500}) and compared with the direct call",
+        "quick": "N in 8..40 + {100,127,1000} (+ spot configurations at N=60000 and 100000: olap {.5,.75}, bmin {1,3.7}, Lmin {1,1000}, Jdes {50,500}, Kdes {10,100}); fs in {1,0.37,1000}; olap in {0,.25,.3,.5,2/3,.75,.9,.99}; bmin in {1,1.5,2,3.7,N/4,N/2-.01}; Lmin in {1,2,5,N//4,N//2,ceil(.9N),N-1,N}; Jdes in {1,2,5,10,50,500}; Kdes in {1,2,10,100}; each plan also requested through SpectrumAnalyzer.plan() (Jdes in {1,5,50,500}) and compared with the direct call",
         "thorough": "N in 8..64 + {100,127,1000,4096,1e4,1e5}; fs in {1,2,0.37,1000}; Jdes adds 3 and 100, Kdes adds 5; same other axes",
     },
     "assumptions": ["call-history part: every ordered pair of a 34-configuration set (one parameter varied at a time) is run as fork->A->fork->B and B compared bitwise with B in a pristine process",
